@@ -260,6 +260,8 @@ def run(rep):
     rep.floor("C04.b", ns, 3)
 
     readbytes_rule(rep)
+    from . import C05
+    C05.utf8_advance_rule(rep, "C04.e")
     rep.undecided += ["equality of the event stream across partitions of the input (refill arithmetic, transcoders' bytesEaten): value-level",
                       "error positions across source types"]
     rep.assumptions += ["refreshCharBuffer() true guarantees only one available character (it returns true with just the spare character)",
